@@ -64,7 +64,8 @@ def strip_lean_comments(src):
 
 
 def load_known_findings():
-  """known_findings.json plus per-property files known_findings.d/*.json (same schema)."""
+  """known_findings.json (the single committed file; a known_findings.d/ directory of per-property
+  files with the same schema is still read if present - builders used it before their entries were merged)."""
   out = []
   paths = [os.path.join(VERIF, 'known_findings.json')]
   d = os.path.join(VERIF, 'known_findings.d')
